@@ -413,7 +413,18 @@ fn step(regs: &mut Vec<Reg>, op: &str) -> Option<Option<i64>> {
         }
         "clone" => {
             let (d, a) = (r(1)?, r(2)?);
-            regs[d] = regs[a].clone();
+            if w.get(3) == Some(&"from") && d != a {
+                // `Clone::clone_from` into the existing destination when both hold the same type
+                let src = regs[a].clone();
+                match (&mut regs[d], &src) {
+                    (Reg::Vec(x), Reg::Vec(y)) => x.clone_from(y),
+                    (Reg::Map(x), Reg::Map(y)) => x.clone_from(y),
+                    (Reg::Enum(x), Reg::Enum(y)) => x.clone_from(y),
+                    (x, y) => *x = y.clone(),
+                }
+            } else {
+                regs[d] = regs[a].clone();
+            }
             Some(None)
         }
         "conv" => {
